@@ -6,10 +6,10 @@ from bounded import wave_parts, simops_drv
 def run(tier, seed):
     res = PropertyResult('C07', 'other', '')
     try:
-        from contracts import wave_kernels_c, wave_c
+        from contracts import wave_comp_c, wave_kernels_c, wave_c
         from pyvc.verify import verify
         from contracts import simops_c
-        res.report = verify(simops_c.targets() + wave_kernels_c.targets_c07() + wave_c.targets(), timeout_s=30 if tier == 'quick' else 120)
+        res.report = verify(simops_c.targets() + wave_kernels_c.targets_c07() + wave_c.targets() + wave_comp_c.targets_cuda(), timeout_s=30 if tier == 'quick' else 120)
     except ImportError:
         res.report = None
     res.explanation = ('Tier P (unbounded): the levelisation phase of SimOps.__init__ (statements from `levels = ..` to `self.level_stops = ..`) is proved for any op table that is '
